@@ -1102,10 +1102,20 @@ func nodeRun(c *verifeng.Chooser, f *nodeFix, env *verifhfs.Env, mode nodeMode, 
 	const stageWait = 90
 	steps := 0
 	stopNow := false
+	lastProgress := ""
 	for !c.Failed() {
 		verifbubble.Wait()
 		if h.safety() {
 			return
+		}
+		// the horizon is 300 s without progress, not 300 s in all
+		if _, bt, err := h.cs.BlockHeaders.ChainTip(); err == nil {
+			_, ft, _ := h.cs.RegFilterHeaders.ChainTip()
+			if key := fmt.Sprintf("%d/%d", bt, ft); key != lastProgress {
+				lastProgress = key
+				idle = 0
+				h.honestWasSyncPeer = false
+			}
 		}
 		if sp := h.cs.blockManager.SyncPeer(); sp != nil {
 			if p := h.peerByAddr(sp.Addr()); p != nil && p.name == "H" {
